@@ -44,7 +44,7 @@ CHECKS = {
     },
     "C16": {
         "modules": ["PGV.Props.C16"], "audits": ["PGV/Audit/C16.lean"],
-        "streams": ["walk-rm", "walk", "walk-gfn"], "thorough_seeds": 4,
+        "streams": ["walk-rm", "walk", "walk-gfn", "walk-gfn-seq"], "thorough_seeds": 4,
         "assumptions": WALK_ASSUME + ["global registrations (SetCustomerValidFn) happen at process start, before any validation (walk-gfn: in two rounds, the later registration of a name replacing the earlier one and built-in names)"],
         "explanation": "theorems: rule-set selection for outermost vs nested structs (no leak), effective rule = set's rule instead of the tag rule, unmentioned fields keep the tag, lookup order per-call > registered > built-in, unknown name = one clause and the loop continues; stream walk-rm: typed/unscoped/both/empty sets, tags, local and global functions; stream walk-gfn: a global name registered twice and built-in names (idcard, le, phone) registered globally",
     },
